@@ -50,6 +50,11 @@ def cases(rng, tier):
                             (rng.choice(["sm", "ctx", "ctx-json"]), sorted(rng.sample(range(n), max(1, n // 4)))),
                             (rng.choice(["ctx", "ctx-json"]), [rng.randrange(1, n)])):
             out.append({"t": "hist", "oidc": oidc, "jwt": jwt, "keys": keys, "mode": mode, "ops": ops, "crash": crash})
+    # a PENDING RP-initiated logout: the end-session request is answered (signed hand-over to the provider's verification page) by the
+    # original instance; the confirmation arrives after the restore
+    for keys in ("pwsalt", "key", "jwks_def"):
+        for mode in (["ctx", "ctx-json"] if tier == "quick" else ["ctx", "ctx-json", "ctx"]):
+            out.append({"t": "logout", "keys": keys, "mode": mode, "jwt": rng.random() < 0.4, "crash": rng.choice(["pending", "pending", "before", "none"])})
     for _ in range(na):
         out.append(gen_aux(rng))
     for _ in range(nf):
@@ -436,7 +441,49 @@ def _run_fs(c):
 
 # ------------------------------------------------------------------ interface
 
+def _logout_impl(c):
+    """(client_3: no back- or front-channel logout URI, so the confirmation makes no HTTP call) login, (crash?), end-session request, (crash?), confirmation; then: is the session over?"""
+    from urllib.parse import urlsplit, parse_qs
+    from idpyoidc.message.oidc.session import EndSessionRequest
+    red, plo = "https://client_3.example.com/cb", "https://client_3.example.com/logout_cb"
+    R = prov.Runner(True, c["jwt"], keys=c["keys"])
+    R.s.context.cdb["client_3"]["post_logout_redirect_uri"] = [(plo, None)]
+    r = R.op(["authorize", "diana", "client_3", ["openid", "offline_access"], red])
+    R.op(["tokenParse", "client_3", r[1], red])
+    t = R.op(["tokenProcess", 0])
+    if t[0] != "tokens":
+        return {"r": "setup", "why": str(t)}
+    at, idt = t[1], R.tv(t[3])
+    cookie = [ck for ck in R.cookies[("diana", "client_3")] if ck["name"] == R.s.context.cookie_handler.name["session"]]
+    o = {"before": R.op_safe(["userinfo", at])[0]}
+    if c["crash"] == "before":
+        R = R.restored(c["mode"]); STATS["restores"] += 1
+    try:
+        ep = R.s.get_endpoint("session")
+        req = EndSessionRequest(id_token_hint=idt, post_logout_redirect_uri=plo, state="bye")
+        req.verify(keyjar=R.s.context.keyjar, sigalg="")
+        out = ep.process_request(req, http_info={"cookie": cookie})
+        sjwt = parse_qs(urlsplit(out["redirect_location"]).query)["sjwt"][0]
+    except Exception as e:
+        return dict(o, r="begin-failed", why=type(e).__name__ + ": " + str(e)[:100])
+    if c["crash"] == "pending":
+        R = R.restored(c["mode"]); STATS["restores"] += 1
+    try:
+        ep = R.s.get_endpoint("session")
+        info = ep.unpack_signed_jwt(sjwt)
+        ep.do_verified_logout(**info)
+        o["confirm"] = "ok"
+        o["target"] = info.get("redirect_uri")
+    except Exception as e:
+        o["confirm"] = "failed:" + type(e).__name__
+    o["after"] = R.op_safe(["userinfo", at])[0]
+    o["r"] = "ok"
+    return o
+
+
 def impl(c):
+    if c["t"] == "logout":
+        return _logout_impl(c)
     if c["t"] == "rp":
         import c09
         obs = c09.impl({"t": "hist", "ops": c["ops"]})
@@ -464,6 +511,8 @@ def _bytes(s):
 
 
 def model_lines(c, obs):
+    if c["t"] == "logout":
+        return []          # the provider model's logout is C03's; here the oracle: the restored instance finishes what the original began
     if c["t"] == "rp":
         import c09
         return c09.model_lines({"ops": c["ops"]}, obs["c09"])
@@ -518,6 +567,8 @@ def _fs_expect(c, o, out):
 
 
 def compare(c, obs, outs):
+    if c["t"] == "logout":
+        return []
     if c["t"] == "rp":
         import c09
         # the RP state model has no restore step: a crash line is a no-op, the store dump after it must equal the one before
@@ -579,6 +630,16 @@ def _good_key(c, k):
 
 def oracle(c, obs):
     v = []
+    if c["t"] == "logout":
+        if obs["r"] == "setup":
+            return v
+        if obs["r"] != "ok":
+            return [{"cls": "pending-logout-lost", "crash": c["crash"], "stage": "begin", "why": obs.get("why")}]
+        if obs["before"] != "userinfo":
+            return v
+        if obs["confirm"] != "ok" or obs["after"] == "userinfo":
+            v.append({"cls": "pending-logout-lost", "crash": c["crash"], "mode": c["mode"], "keys": c["keys"], "confirm": obs["confirm"], "token_still_honoured": obs["after"] == "userinfo"})
+        return v
     if c["t"] == "rp":
         got = [s for s, o in zip(obs["steps"], c["ops"]) if o[0] != "crash"]
         for i, (a, b) in enumerate(zip(got, obs["ref"])):
@@ -645,6 +706,8 @@ def known_key(c, v, known):
 
 
 def classify(c, obs):
+    if c["t"] == "logout":
+        return f"logout:{c['crash']}:{c['mode']}:{c['keys']}"
     if c["t"] == "rp":
         return "rp:" + str(sum(1 for o in c["ops"] if o[0] == "crash"))
     if c["t"] == "hist":
@@ -655,6 +718,8 @@ def classify(c, obs):
 
 
 def nontrivial(c, obs):
+    if c["t"] == "logout":
+        return c["crash"] != "none"
     if c["t"] == "rp":
         return True
     if c["t"] == "hist":
